@@ -8,6 +8,7 @@ package xreq
 //@   immutable: p s closeQ
 //@
 //@ struct socket
+//@   never_closed: sendQ
 //@   close_token closeQ when closed
 //@   close_token sizeQ
 //@   lock Mutex level 20
